@@ -131,7 +131,21 @@ PROPS["C05"] = {
     "partial": "containment / latitude range (floating point)",
 }
 
+PROPS["C12"] = {
+    "gen": ["Toast", "Lookup"],
+    "trusted_base": ["the containment scores below level 1 (`_equ_to_xyz`, cross/dot products on doubles) are inputs of the model: the theorems hold for every outcome of the scores; that some child of a tile containing the point scores (nearly) 0 is measured, not proved",
+                     "longitudes in the level-1 theorems are exact rationals in turns; the float comparisons against 0.5π, π, 1.5π, 2π are exercised at the module's own constants",
+                     "the least-squares fit of toast_pixel_for_point (numpy lstsq) is exercised (within 2 px of the nearest centre), not modelled"],
+    "assumptions": COMMON_ASSUME + ["lat and lon are finite numbers"],
+    "partial": "containment below level 1 and pixel accuracy (floating point)",
+}
+
 LEVEL_TEXT = {
+    "C12": {
+        "text": "The level-1 rules of _toast_tile_containment_score and the statement shape of toast_tile_for_point / toast_pixel_for_point are re-extracted every run. Kernel-checked for every rational longitude (turns), every number of whole extra turns, both coordinate systems, every depth and every outcome of the floating-point scores: the level-1 loop always stops at a tile scoring 0 and that tile has among its corners, in the requested coordinate system, the two equatorial vertices of a quarter of longitudes containing the point; whole turns do not change the answer; at each level the child chosen has the largest score, the first zero-scoring child if there is one; answers for increasing depths are nested and the tile returned is the C04 tile of its position; a clipped edge sum is 0 iff the point is on the inner side of all four edges. The real lookup is run against the model at quarter-turn boundaries, interior rationals and scripted scores, and on floats (random and special points, tile features, both systems, depths 0-12) for containment, nesting and 2π-periodicity; pixel positions are compared with the nearest pixel centre.",
+        "note": "trusted: Lean kernel; the AST extraction (gen_more.gen_lookup); the harness. Containment below level 1 and the pixel fit are floating-point geometry: validated numerically only.",
+        "technique": "Lean 4 proof (decision logic over exact rationals, rules extracted from source) + differential and numeric execution",
+    },
     "C04": {
         "text": "The level-1 table, `_div4` and `_subsample` are re-extracted on every run by executing the real functions on symbolic points. Over an arbitrary point type and an arbitrary midpoint operation, kernel-checked for every depth, position and coordinate system: create_single_tile, (filtered) enumeration and the point-lookup descent (for every sequence of choices) all return `tileAt pos` — one tile per position; the filtered enumeration is a sublist of the unfiltered one, which visits every valid position of levels 1..depth exactly once (4^n per level) in the order of the pyramid model; under commutativity of the midpoint the tiles of a level are the cells of one vertex grid, so neighbours share corners and edges, each tile is tiled by its four children whose new corners are the parent's edge midpoints and diagonal midpoint, vertices persist to all deeper levels, and the outer edges of the square are glued pairwise; the level-1 cells are the documented layout (N centre, S corners, longitude 0 right / left); the planetary grid is the astronomical one under the half-turn. The real routes are run on symbolic points against the term model, and on floats (compiled extension and transliterated .pyx) against each other; midpoint, commutativity, areas (4π per level, parent = Σ children) and shared corners are validated numerically.",
         "note": "trusted: Lean kernel; the symbolic extraction (tables_more.gen_toast, pyx2py); the harness. Areas and the great-circle nature of `_mid` are outside the model (numerical only).",
